@@ -401,7 +401,7 @@ NULL = _Null()
 #    from ordereddict import OrderedDict as odict
 
 from copy import copy
-def _keygen(func, ignored, *args, **kwds):
+def _keygen(func, ignored, /, *args, **kwds):
     """generate a 'key' from the (*args,**kwds) suitable for use in caching
 
     func is the function being called
